@@ -66,6 +66,17 @@ Proof.
   - destruct (find id l); reflexivity.
 Qed.
 
+(* storing an entry that is already stored, unchanged *)
+Lemma put_same l e : NoDup (keys l) -> In e l -> put e l = l.
+Proof.
+  induction l as [|x l IH]; intros Hnd Hin; [destruct Hin|].
+  cbn [keys map] in Hnd. fold (keys l) in Hnd. inversion Hnd as [|? ? Hx Hnd']; subst.
+  cbn [put]. destruct (N.eqb_spec (bid (eb x)) (bid (eb e))) as [E|E].
+  - destruct Hin as [->|Hin]; [reflexivity|].
+    exfalso. apply Hx. unfold key. rewrite E. apply (in_map key). exact Hin.
+  - destruct Hin as [->|Hin]; [congruence|]. f_equal. apply IH; assumption.
+Qed.
+
 (* ---- set_sent ---- *)
 
 Lemma set_sent_keys id l : keys (set_sent id l) = keys l.
